@@ -134,18 +134,44 @@ func (c *Ctx) evaluatorBindingShape(e RegEntry) (entries bool, fun bool, binds b
 			return true
 		}
 		ent := identObj(info, rs.Value)
-		// the entry is itself indexed as a list
-		ast.Inspect(rs.Body, func(m ast.Node) bool {
-			if s2, ok := m.(*ast.SelectorExpr); ok && s2.Sel.Name == "Cells" && identObj(info, s2.X) == ent {
-				entries = true
-			}
-			if ce, ok := m.(*ast.CallExpr); ok {
-				if s3, ok := ast.Unparen(ce.Fun).(*ast.SelectorExpr); ok && s3.Sel.Name == "Lambda" {
-					fun = true
+		// the entry is itself indexed as a list — in the loop body, or in a same-package helper the
+		// body hands the entry to (one entry of the binding list handled by a shared function)
+		var scan func(ui *types.Info, body ast.Node, entObj types.Object, depth int)
+		scan = func(ui *types.Info, body ast.Node, entObj types.Object, depth int) {
+			ast.Inspect(body, func(m ast.Node) bool {
+				if s2, ok := m.(*ast.SelectorExpr); ok && s2.Sel.Name == "Cells" && identObj(ui, s2.X) == entObj {
+					entries = true
 				}
-			}
-			return true
-		})
+				if ce, ok := m.(*ast.CallExpr); ok {
+					if s3, ok := ast.Unparen(ce.Fun).(*ast.SelectorExpr); ok {
+						if s3.Sel.Name == "Lambda" {
+							fun = true
+						}
+						if s3.Sel.Name == "Put" && depth > 0 {
+							if tv, ok := ui.Types[s3.X]; ok && strings.HasSuffix(tv.Type.String(), "lisp.LEnv") {
+								binds = true
+							}
+						}
+					}
+					if depth < 2 {
+						if h := originOf(Callee(ui, ce)); h != nil && h.Pkg() == u.Obj.Pkg() {
+							if hd := c.declOf[h]; hd != nil && hd.Body != nil {
+								hu := FuncUnit{h, hd, c.pkgOf[hd]}
+								hps := paramObjs(hu)
+								off := 0
+								for i, a := range ce.Args {
+									if identObj(ui, a) == entObj && i+off < len(hps) {
+										scan(hu.Pkg.TypesInfo, hd.Body, hps[i+off], depth+1)
+									}
+								}
+							}
+						}
+					}
+				}
+				return true
+			})
+		}
+		scan(info, rs.Body, ent, 0)
 		return true
 	})
 	return entries, fun, binds
